@@ -40,7 +40,9 @@ const (
 	ScrubBase    = -1000000 // custom delete maps N to ScrubBase - N
 )
 
-// ObjToken canonicalises stored object bytes to the model's integer token.
+// ObjToken canonicalises stored object bytes to the model's integer token. An object without a map carries its value in N;
+// an object with a map (odd N) carries it in M["k"], which the custom delete function scrubs IN PLACE (through the map, as a
+// deleter that walks a nested structure does), leaving N alone.
 func ObjToken(b []byte) int {
 	if string(b) == "{'result': 'deleted'}" {
 		return MarkerToken
@@ -49,15 +51,37 @@ func ObjToken(b []byte) int {
 	if err := json.Unmarshal(b, &o); err != nil {
 		return GarbageToken
 	}
+	if o.M != nil {
+		k, ok := o.M["k"]
+		if !ok || len(o.M) != 1 || o.N%2 == 0 || (k != o.N && k != ScrubBase-o.N) {
+			return GarbageToken
+		}
+		wb, _ := json.Marshal(o)
+		if string(wb) != string(b) {
+			return GarbageToken
+		}
+		return k
+	}
 	orig := o.N
 	if o.N <= ScrubBase/2 {
 		orig = ScrubBase - o.N
 	}
 	want := MkObj(orig)
+	if want.M != nil { // an odd value without its map
+		return GarbageToken
+	}
 	want.N = o.N
 	wb, _ := json.Marshal(want)
 	if string(wb) != string(b) {
 		return GarbageToken
+	}
+	return o.N
+}
+
+// Tok: the value an in-memory object carries (see ObjToken)
+func (o Obj) Tok() int {
+	if k, ok := o.M["k"]; ok && o.M != nil {
+		return k
 	}
 	return o.N
 }
